@@ -255,7 +255,7 @@ Lemma unauthorised_on_name c s n ns :
 Proof.
   intros Hn Hm Ho. repeat split; intros; cbn [authorised]; unfold token_ns;
     rewrite ?H, ?Hn, ?Hm, ?Ho; try reflexivity.
-  rewrite H0, H, Hn, Hm. apply andb_false_r.
+  rewrite ?H0, ?H, ?Hn, ?Hm. apply andb_false_r.
 Qed.
 
 (** the token of a live, well-formed, non-TLD name is the name itself *)
